@@ -254,6 +254,8 @@ def scalar_feature_exists(name):
 
 class Model:
     def __init__(self, repo, features=None):
+        from .lib_C17 import _install_class_state
+        _install_class_state()     # class-level constants (enum members)
         _install_walrus()
         self.it = L.Interp(repo)
         self.reg = PolyRegistry()
